@@ -256,6 +256,13 @@ func countBlock(spec *common.Spec, c Counters, ev *blockEvent, pre *absstate.Sta
 	if len(post.Validators) > len(pre.Validators) {
 		c.Add("deposits_new_validator", len(post.Validators)-len(pre.Validators))
 		c.Add("new_validator_deposit_in_"+pre.Fork, 1) // every fork has its own AddValidator
+		for i := len(pre.Validators); i < len(post.Validators) && i < len(post.Balances); i++ {
+			if uint64(post.Balances[i]) > uint64(spec.MAX_EFFECTIVE_BALANCE) {
+				c.Add("new_validator_deposit_above_max_effective_balance_"+pre.Fork, 1)
+			} else if uint64(post.Balances[i]) < uint64(spec.MAX_EFFECTIVE_BALANCE) {
+				c.Add("new_validator_deposit_below_max_effective_balance_"+pre.Fork, 1)
+			}
+		}
 	}
 	if len(b.Deposits) > len(post.Validators)-len(pre.Validators) {
 		c.Add("deposits_topup_or_skipped", len(b.Deposits)-(len(post.Validators)-len(pre.Validators)))
@@ -304,6 +311,25 @@ func countBlock(spec *common.Spec, c Counters, ev *blockEvent, pre *absstate.Sta
 		}
 		if yes > 0 && no > 0 {
 			c.Add("attester_slashing_with_unslashable_member", 1)
+		}
+		// the two index sets differ on both sides: only the intersection is slashed
+		in1 := map[int]bool{}
+		for _, i := range as.A1.Indices {
+			in1[i] = true
+		}
+		only1, only2 := 0, 0
+		for _, i := range as.A1.Indices {
+			if !in2[i] {
+				only1++
+			}
+		}
+		for _, i := range as.A2.Indices {
+			if !in1[i] {
+				only2++
+			}
+		}
+		if only1 > 0 && only2 > 0 && yes > 0 {
+			c.Add("attester_slashing_partial_intersection_"+pre.Fork, 1)
 		}
 	}
 	// signature-byte shape x {new pubkey, top-up}: the spec verifies the signature of new pubkeys only
